@@ -471,6 +471,7 @@ func execChain(f []string) string {
 func execPar(arg string) string {
 	subs := strings.Split(arg, "|")
 	outs := make([]string, len(subs))
+	start := make(chan struct{})
 	var wg sync.WaitGroup
 	for i, s := range subs {
 		wg.Add(1)
@@ -481,10 +482,26 @@ func execPar(arg string) string {
 					outs[i] = "panic"
 				}
 			}()
-			time.Sleep(time.Duration(i%4) * 200 * time.Microsecond)
-			outs[i] = P{}.Exec("C15 " + strings.ReplaceAll(s, "~", " "))
+			line := "C15 " + strings.ReplaceAll(s, "~", " ")
+			// cheap sub-cases are repeated so that the instances really overlap in time; every repetition
+			// must give the same answer (an answer that flickers under concurrency is reported as such)
+			reps := 40
+			if strings.HasPrefix(s, "chain") {
+				reps = 1
+			}
+			<-start
+			for k := 0; k < reps; k++ {
+				o := P{}.Exec(line)
+				if k == 0 {
+					outs[i] = o
+				} else if o != outs[i] {
+					outs[i] = "flicker"
+					return
+				}
+			}
 		}(i, s)
 	}
+	close(start)
 	wg.Wait()
 	return strings.Join(outs, "|")
 }
